@@ -382,7 +382,70 @@ static int d_thread_create_many(void **h)
     }
     int rc = ABT_thread_create_many(4, pl, fl, al, ABT_THREAD_ATTR_NULL, many_h);
     *h = rc == ABT_SUCCESS ? (void *)many_h : POISON;
+    if (rc != ABT_SUCCESS) {
+        /* the units created before the failing one exist and have handles; every other entry is
+         * untouched or the NULL handle -- never something that is not a handle of this call */
+        int seen_hole = 0;
+        for (int i = 0; i < 4; i++) {
+            if (many_h[i] == (ABT_thread)POISON || many_h[i] == ABT_THREAD_NULL) {
+                seen_hole = 1;
+                continue;
+            }
+            SIM_CHECK(!seen_hole, "fault:dangling-handle", "ABT_thread_create_many failed with %d; entry %d of the handle array holds %p although an earlier entry was not created", rc, i,
+                      (void *)many_h[i]);
+            for (int j = 0; j < i; j++)
+                SIM_CHECK(many_h[j] != many_h[i], "fault:dangling-handle", "ABT_thread_create_many failed with %d and stored the same handle %p in entries %d and %d", rc, (void *)many_h[i], j, i);
+        }
+        /* exactly the first `created` entries may be handles: the entry of the unit whose creation
+         * failed must not be one */
+        for (int i = 0; i < 4; i++)
+            if (many_h[i] != (ABT_thread)POISON && many_h[i] != ABT_THREAD_NULL) {
+                ABT_thread_state st;
+                ABT_OK(ABT_thread_get_state(many_h[i], &st));
+                ABT_OK(ABT_thread_free(&many_h[i]));
+            }
+    }
     return rc;
+}
+/* a batch large enough to make the memory pools allocate pages inside the call */
+#define NMANY 48
+static ABT_thread many48_h[NMANY];
+static int d_thread_create_many48(void **h)
+{
+    ABT_pool pl[NMANY];
+    void (*fl[NMANY])(void *);
+    for (int i = 0; i < NMANY; i++) {
+        pl[i] = target_pool();
+        fl[i] = nop_fn;
+        many48_h[i] = (ABT_thread)POISON;
+    }
+    int rc = ABT_thread_create_many(NMANY, pl, fl, NULL, ABT_THREAD_ATTR_NULL, many48_h);
+    *h = rc == ABT_SUCCESS ? (void *)many48_h : POISON;
+    if (rc != ABT_SUCCESS) {
+        int seen_hole = 0;
+        for (int i = 0; i < NMANY; i++) {
+            if (many48_h[i] == (ABT_thread)POISON || many48_h[i] == ABT_THREAD_NULL) {
+                seen_hole = 1;
+                continue;
+            }
+            SIM_CHECK(!seen_hole, "fault:dangling-handle", "ABT_thread_create_many failed with %d; entry %d of the handle array holds %p although an earlier entry was not created", rc, i,
+                      (void *)many48_h[i]);
+            for (int j = 0; j < i; j++)
+                SIM_CHECK(many48_h[j] != many48_h[i], "fault:dangling-handle",
+                          "ABT_thread_create_many failed with %d and stored the same handle %p in entries %d and %d: the entry of the unit that could not be created is not a handle of its own", rc,
+                          (void *)many48_h[i], j, i);
+        }
+        for (int i = 0; i < NMANY; i++)
+            if (many48_h[i] != (ABT_thread)POISON && many48_h[i] != ABT_THREAD_NULL)
+                ABT_OK(ABT_thread_free(&many48_h[i]));
+    }
+    return rc;
+}
+static void u_thread_many48(void **h)
+{
+    (void)h;
+    for (int i = 0; i < NMANY; i++)
+        ABT_OK(ABT_thread_free(&many48_h[i]));
 }
 static void u_thread_many(void **h)
 {
@@ -818,6 +881,7 @@ static const op18 OPS[] = {
     { "ABT_thread_create(attr with callback)", d_thread_create_attr_cb, u_thread, ABT_THREAD_NULL, 0 },
     { "ABT_task_create", d_task_create, u_thread, ABT_TASK_NULL, 0 },
     { "ABT_thread_create_many", d_thread_create_many, u_thread_many, POISON, 0 },
+    { "ABT_thread_create_many(x48)", d_thread_create_many48, u_thread_many48, POISON, 0 },
     { "ABT_thread_revive", d_thread_revive, u_thread_revive, POISON, 0 },
     { "ABT_thread_create(x48)", d_thread_create_bulk, u_bulk, POISON, 0, 0 },
     { "ABT_task_create(x48)", d_task_create_bulk, u_bulk, POISON, 0, 0 },
